@@ -101,6 +101,18 @@ CHECKS = {
              "and every mutator of a table under forall must be refused at compile time.",
         note="trusted: the Python list model; containers above 5 elements are not expanded; 48 tuple-declaration hash collisions are recorded findings (KNOWN_FINDINGS.txt)",
         design="DESIGN.md section 4, C09"),
+    "C05": dict(
+        engine="E1 space + E2 hist",
+        technique="exhaustive enumeration of the expression vocabulary with repeated evaluation and deep dumps; explicit-state breadth-first search over assignment/mutation histories compared with a deep-copy model",
+        text="(a) Every expression of the vocabulary product (every builtin, operator, type method and @rank applied to the boundary value alphabet, literals and "
+             "variables of every type) is printed three times by the same program node inside a loop and assigned twice; the three results must be equal and "
+             "the deep dump of all 24 context variables (scalars, strings, bytes, tuples, 1- and 2-dimensional tables, nulls) must be identical before and "
+             "after, except the receiver of an in-place method. (b) Breadth-first search to depth 3 (quick) / 4 (thorough) over histories of b = a, a = a, "
+             "fresh assignment, in-place mutators on each variable, t.put(i, a), t = tab(n, a), u = tup(a, ..), element access and mutation through at(), "
+             "calls that mutate or return their parameter, and forall writes, for strings, bytes, tables (incl. tables of tables) and tuples; states are "
+             "canonical dumps, and in every state the dump of {a, b, t, u} must equal a Python deep-copy model.",
+        note="trusted: the deep-copy model; impure builtins (random, read, readln, input, getsys, getenv) are excluded from (a); objects are shared by design (C17)",
+        design="DESIGN.md section 4, C05"),
 }
 
 NOT_YET = {}
